@@ -35,20 +35,9 @@ Proof.
   intros st k exc st' sw H Hsw Hc. unfold scope_exit in H.
   destruct (negb (s_host (get_scope st k))); [inversion H; congruence|].
   destruct (s_called (get_scope st k)) eqn:Ec.
-  - split; [reflexivity|]. inversion H as [[H1 H2]]. subst sw.
-    eapply exit_called_caught; eauto.
-  - inversion H as [[H1 H2]]. simpl in H2. congruence.
-Qed.
-
-(* the value __exit__ returns is the scope's cancelled_caught() *)
-Lemma scope_exit_returns_caught : forall st k exc st' sw,
-  scope_exit st k exc = (st', sw) -> s_host (get_scope st k) = true ->
-  sw = (if s_called (get_scope st k) then snd (exit_called
-          (set_sstack (cancel_ohandle (cancel_ohandle st (s_th (get_scope st k))) (s_ch (get_scope st k)))
-                      (tl (sstack (cancel_ohandle (cancel_ohandle st (s_th (get_scope st k))) (s_ch (get_scope st k))))))
-          k (get_scope st k) exc)
-        else s_caught (get_scope st k)).
-Proof.
-  intros st k exc st' sw H Hh. unfold scope_exit in H. rewrite Hh in H. simpl in H.
-  destruct (s_called (get_scope st k)); inversion H; reflexivity.
+  - split; [reflexivity|].
+    match type of H with context [exit_takeback ?a ?b ?c] => destruct (exit_takeback a b c) as [stx cx] end.
+    inversion H as [[H1 H2]]. subst sw. eapply exit_called_caught; eauto.
+  - match type of H with context [exit_takeback ?a ?b ?c] => destruct (exit_takeback a b c) as [stx cx] end.
+    inversion H as [[H1 H2]]. simpl in H2. congruence.
 Qed.
